@@ -270,9 +270,42 @@ def search(ctx):
                 break
     sibling_histories(ctx)
     multichannel(ctx)
+    default_options_histories(ctx)
     ctx.sample(dict(kind="search", oracles=["holo == |s E + p|^2 from calc_field", "intensity == |E|^2", "scaling 0 -> exactly 1", "finite",
                                             "coords/dims == detector's", "attrs updated", "inputs untouched", "shuffled sequences bit-identical",
                                             "sibling histories: calculations differing in one argument, every ordered pair consecutive once, bit-identical to the value after an unrelated call"]))
+
+
+# ------------------------------------------------------------------ default-constructed theories across calls
+def default_options_histories(ctx):
+    """a theory built with its defaults is the theory built with those defaults written out, whatever was calculated before with
+    OTHER default-built instances: detectors of very different extent (a camera-sized field of view after a small one and the other
+    way round) with the lens theories, whose accuracy options default to a dictionary"""
+    from holopy.scattering import MieLens
+    from holopy.scattering.theory import AberratedMieLens
+    rng = ctx.rng
+    sc = Sphere(n=1.59, r=1.0, center=(25.0, 25.0, 40.0))
+    small = detector_grid((6, 6), 0.8).assign_coords(x=detector_grid((6, 6), 0.8).x + 22.0, y=detector_grid((6, 6), 0.8).y + 22.0)
+    large = detector_grid((24, 24), 2.2)          # k*rho up to ~470 from the particle
+    for name, mk_default, mk_explicit in (("MieLens", lambda: MieLens(), lambda: MieLens(lens_angle=1.0, calculator_accuracy_kwargs={})),
+                                          ("AberratedMieLens", lambda: AberratedMieLens(), lambda: AberratedMieLens(spherical_aberration=0.0, lens_angle=1.0, calculator_accuracy_kwargs={}))):
+        for order in (("small", "large"), ("large", "small")) if ctx.seed % 2 == 0 else (("large", "small"), ("small", "large")):
+            got = {}
+            try:
+                for which in order:
+                    det = small if which == "small" else large
+                    ctx.tried("default-options-history", (name, order, which))
+                    got[which] = calc_holo(det, sc, illum_polarization=(1.0, 0.0), theory=mk_default(), **OPT).values
+                for which in order:
+                    det = small if which == "small" else large
+                    ref = calc_holo(det, sc, illum_polarization=(1.0, 0.0), theory=mk_explicit(), **OPT).values
+                    if got[which].tobytes() != ref.tobytes():
+                        ctx.violation("C01:history:default-options:%s" % name, "%s() on the %s detector, calculated %s the %s one with another %s(): differs by %.3g from the same theory with its default options written out" % (
+                            name, which, "after" if order[1] == which else "before", order[0] if order[1] == which else order[1], name, float(np.abs(got[which] - ref).max())),
+                            dict(kind="default-options-history", theory=name, order=list(order), which=which))
+                        break
+            except Exception as ex:
+                ctx.violation("C01:history-raises:default-options:%s" % type(ex).__name__, "default-options history for %s raised %r" % (name, ex), dict(kind="raises", theory=name))
 
 
 # ------------------------------------------------------------------ several illumination channels, optics as dictionaries
